@@ -155,10 +155,22 @@ def run_real(pipe, case):
     return {"result": res, "log": list(LOG)}
 
 
+def gen_redefault(rng):
+    """directed: a component with one wired and one unwired parameter; the unwired one takes a default connection that is re-pointed
+    (to a leaf with another value) after the builder has been built / hashed / cloned once"""
+    vals = rng.sample(range(-3, 10), 3)
+    nodes = [{"kind": "literal", "value": {"i": vals[0]}}, {"kind": "literal", "value": {"i": vals[1]}}, {"kind": "input", "acceptsNone": False, "accepts": ["int"]},
+             {"kind": "comp", "op": rng.choice(["add", "sumOpt"]), "k": rng.randint(0, 5),
+              "params": [{"lzy": False, "acceptsNone": False, "accepts": ["int"], "src": rng.choice([0, 1, 2])}, {"lzy": False, "acceptsNone": False, "accepts": ["int"], "src": None}]}]
+    a, b = rng.sample([0, 1, 2], 2)
+    order = list(range(4)); rng.shuffle(order)
+    return {"nodes": nodes, "inputs": [None, None, {"i": vals[2]}, None], "requests": [3], "decl": order,
+            "defaults": {"p1": a}, "redefault": {"p1": b}, "between": rng.choice(["build", "config_hash", "clone"])}
+
 def gen(rng: random.Random, tier: str):
     n = {"quick": 1500, "thorough": 200000}[tier]
-    for _ in range(n):
-        yield gen_case(rng)
+    for k in range(n):
+        yield gen_redefault(rng) if k % 25 == 7 else gen_case(rng)
 
 def run(case: dict, lean: Lean) -> Outcome:
     _imports()
